@@ -29,7 +29,8 @@ def run_one(args):
 def cli_one(args):
     base, fault, country = args
     a = l1faults.apply(base, fault)
-    return l1.cli_run({"country": country, "ini": a["ini"], "sheets": a["sheets"], "args": a["args"] or fault.get("args", [])})
+    # fault["argv"]: the same options as a["args"] in another spelling argparse accepts (--method=X, -mX, unique prefix --meth X)
+    return l1.cli_run({"country": country, "ini": a["ini"], "sheets": a["sheets"], "args": fault.get("argv") or a["args"] or fault.get("args", [])})
 
 
 def impl_verdict(r):
